@@ -65,6 +65,20 @@ impl ActionGroup {
                 })
         } else {
             self.parse_action_expr(unit_parser, input)
+                .and_then(|unit| match unit.parsed.expr() {
+                    //
+                    // What follows `..` / `>.` is pasted after a dot, so it has to be able to stand there.
+                    //
+                    ActionExpr::Process(ProcessExpr::Dot([expr]))
+                        if syn::parse2::<syn::Expr>(quote::quote! { __v.#expr }).is_err() =>
+                    {
+                        Err(syn::Error::new_spanned(
+                            expr,
+                            "expected a field, method call or index after `..` / `>.`",
+                        ))
+                    }
+                    _ => Ok(unit),
+                })
         }
     }
 
